@@ -97,6 +97,10 @@ NumProds(env) ==
   \cup (IF Prof.first THEN {P(Tok("First", "", "", 0, 1), <<Hole(S(N), env)>>)} ELSE {})
   \cup (IF Prof.index THEN {P(Tok("Idx", "", "", 0, 1), <<Hole(V(N), env), Hole(ICONST, env)>>)} ELSE {})
   \cup {P(Tok("Math", f[1], "", f[2], 1), [i \in 1..f[2] |-> Hole(N, env)]) : f \in Prof.math}
+  \cup {P(Tok("UserFn", UserFns[i].id, UserFns[i].style, Len(UserFns[i].params) + (IF UserFns[i].style = "method" THEN 1 ELSE 0), 1),
+           (IF UserFns[i].style = "method" THEN <<Hole(O("A"), env)>> ELSE <<>>)
+           \o [j \in 1..Len(UserFns[i].params) |-> Hole(N, env)]) :
+          i \in {i \in DOMAIN UserFns : UserFns[i].id \in Prof.userfns /\ UserFns[i].meaning # "pair"}}
 
 BoolProds(env) ==
      {P(Tok("Cmp", op, "", 0, 1), <<Hole(N, env), Hole(N, env)>>) : op \in Prof.cmpops}
@@ -134,6 +138,11 @@ SeqProds(e, env) ==
         ELSE {})
   \cup {P(Tok("SelectMany", Fresh(env), "", 0, 1), <<Hole(S(s), env), Hole(S(e), Ext(env, Fresh(env), s))>>) :
           s \in IF Prof.selectmany THEN ElemTypes ELSE {}}
+  \cup (IF e = N
+        THEN {P(Tok("UserFn", UserFns[i].id, UserFns[i].style, Len(UserFns[i].params), 1),
+                [j \in 1..Len(UserFns[i].params) |-> Hole(N, env)]) :
+                i \in {i \in DOMAIN UserFns : UserFns[i].id \in Prof.userfns /\ UserFns[i].meaning = "pair"}}
+        ELSE {})
   \cup (IF Prof.range /\ e = N
         THEN {P(Tok("Range", "", "", 0, 1), <<Hole(ICONST, env), Hole(N, env)>>)} ELSE {})
 
